@@ -341,7 +341,7 @@ func c15Bulk(c *core.Ctx) {
 		return true
 	})
 	if worker == nil {
-		c.Ob("C15-R3", fd.Name()+"#worker", loop.Pos(), false, "no per-request goroutine that processes a request and sends its response found in the loop")
+		c.Ob("C15-R3", fd.Name()+"#worker", loop.Pos(), false, "NOT FOUND: no per-request goroutine (a go statement with a function literal) that processes a request and sends its response in the loop")
 		return
 	}
 	psig := core.Callee(info, procCall).Type().(*types.Signature)
@@ -391,6 +391,45 @@ func c15Bulk(c *core.Ctx) {
 				}
 				if be, ok := ast.Unparen(defs[0].RHS).(*ast.BinaryExpr); ok && be.Op == token.ADD {
 					okAtomic = true
+				}
+				// seq := count, with `count++` as a statement of the loop body before it, the counter
+				// being touched by nothing else (the dispatcher is the only goroutine that sees it)
+				if cv := core.VarOf(info, defs[0].RHS); cv != nil && !cv.IsField() && cv != v {
+					incs, others := 0, 0
+					for _, st := range loop.Body.List {
+						if inc, ok := st.(*ast.IncDecStmt); ok && inc.Tok == token.INC && core.VarOf(info, inc.X) == cv && inc.Pos() < defs[0].Pos {
+							incs++
+						}
+					}
+					ast.Inspect(fd.Decl.Body, func(m ast.Node) bool {
+						switch x := m.(type) {
+						case *ast.AssignStmt:
+							for _, l := range x.Lhs {
+								if core.VarOf(info, l) == cv && x.Tok != token.DEFINE {
+									others++
+								}
+							}
+						case *ast.IncDecStmt:
+							if core.VarOf(info, x.X) == cv && !(loop.Body.Pos() <= x.Pos() && x.End() <= loop.Body.End()) {
+								others++
+							}
+						case *ast.UnaryExpr:
+							if x.Op == token.AND && core.VarOf(info, x.X) == cv {
+								others++
+							}
+						}
+						return true
+					})
+					usedInWorker := false
+					ast.Inspect(worker, func(m ast.Node) bool {
+						if id, ok := m.(*ast.Ident); ok && info.Uses[id] == types.Object(cv) {
+							usedInWorker = true
+						}
+						return true
+					})
+					if incs == 1 && others == 0 && !usedInWorker {
+						okAtomic = true
+					}
 				}
 			}
 			c.Ob("C15-R3", fd.Name()+"#sequence-once-per-request", a.Pos(), once && okAtomic,
